@@ -439,3 +439,16 @@ Proof.
   intro H. unfold wrap_call. destruct (cb_acquire pol now c) as [ok c1]. cbn [fst] in H. subst ok.
   cbn [fst]. destruct h; auto.
 Qed.
+
+(** for every request shape (stream or buffered body, retry configured or not) a
+    short-circuited request contacts no server, an admitted one at least one *)
+Lemma short_circuit_every_shape pol now h c retry stream b :
+  (fst (cb_acquire pol now c) = false -> pool_contacts retry stream (fst (wrap_call pol now h c)) b = 0) /\
+  (fst (cb_acquire pol now c) = true -> 1 <= pool_contacts retry stream (fst (wrap_call pol now h c)) b).
+Proof.
+  unfold wrap_call. destruct (cb_acquire pol now c) as [ok c1]. cbn [fst].
+  split; intro E; subst ok; cbn [fst]; [reflexivity|].
+  unfold pool_contacts.
+  destruct h; cbn [wrap_result]; destruct b; try lia;
+    destruct (Z.ltb_spec 0 retry), stream; cbn [andb negb]; lia.
+Qed.
